@@ -194,16 +194,34 @@ class Gen:
         if self.chance("override"):
             self.overridable(s, sections, seg_level=True)
         self.keep(s, sections)
+        sgm = s.get("sections_subgroups", gsettings.get("sections_subgroups"))
+        if isinstance(sgm, dict) and sgm and self.r.random() < 0.35:
+            # a pad / linker offset that sits in a sub-group member (preferably one of depth two or more), listed
+            # directly on the segment or inside its first group
+            members = [m for v in sgm.values() for m in (v or [])]
+            deep = [m for k in members for m in (sgm.get(k) or [])]
+            if members:
+                e = {"kind": self.pick(["pad", "linker_offset"]), "section": self.pick(deep or members)}
+                if e["kind"] == "pad":
+                    e["pad_amount"] = self.pick([4, 0x10, 0x100])
+                else:
+                    e["linker_offset_name"] = self.pick(["deep_a", "deep_b"])
+                groups = [f for f in s["files"] if f.get("kind") == "group"]
+                tgt = groups[0]["files"] if groups and self.r.random() < 0.3 else s["files"]
+                tgt.insert(self.r.randrange(len(tgt) + 1), e)
         return s
 
     def overridable(self, rec, sections, seg_level):
         """the per-segment overridable options other than the two section lists"""
         def maybe_null(v):
             return None if self.r.random() < 0.15 else v
+        gs_ = getattr(self, "cur_settings", None) or {}
         for f in ("subalign", "segment_start_align", "segment_end_align", "section_start_align",
                   "section_end_align"):
             if self.chance("align"):
                 rec[f] = maybe_null(self.pow2() if f == "subalign" else self.align_value())
+            elif seg_level and gs_.get(f) is not None and self.r.random() < 0.3:
+                rec[f] = None                  # an explicit null that shields the segment from the global value
         for f in ("sections_start_alignment", "sections_end_alignment"):
             if self.chance("align"):
                 rec[f] = {k: self.align_value() for k in self.subset(sections + [".nosuch"], 0, 3)}
@@ -264,7 +282,7 @@ class Gen:
                 st["discard_wildcard_section"] = self.r.random() < 0.5
         if self.chance("partial"):
             st["partial_scripts_folder"] = self.path(["scripts", "ld_{version}"], 1)
-            st["partial_build_segments_folder"] = self.path(["segments", "seg_{version}"], 1)
+            st["partial_build_segments_folder"] = self.path(["segments", "seg_{version}", "{region}", "o_{version}_{region}"], 1)
         if self.chance("custom_lists"):
             st["alloc_sections"] = self.subset(ALLOC_POOL, 1, 4)
             if self.chance("cross_pool"):
@@ -292,6 +310,12 @@ class Gen:
             else:
                 c["follows_classes"] = self.subset(names[:i], 1, 2) if self.r.random() < 0.9 else \
                     self.subset(names, 1, 2)
+            if "follows_classes" in c and self.r.random() < 0.3:
+                # a followed class whose name contains this class's name (overlay / overlay_common)
+                longer = [x for x in names if x != n and n in x]
+                if longer:
+                    c["follows_classes"] = [x for x in c["follows_classes"] if x not in longer] + [self.pick(longer)]
+                    self.r.shuffle(c["follows_classes"])
             if self.r.random() < 0.06:
                 c["follows_classes"] = []          # an explicitly empty list next to (or instead of) a placement
             if self.r.random() < self.p["class_keep"]:
@@ -343,6 +367,7 @@ class Gen:
         if st is not None:
             doc["settings"] = st
         gs = st or {}
+        self.cur_settings = gs
         single = self.chance("single")
         if single:
             gs["single_segment_mode"] = True
@@ -408,7 +433,7 @@ def malform(rnd, doc):
     still-valid document: the model decides)"""
     from . import enc
     d = copy.deepcopy(doc)
-    kind = rnd.randrange(7)
+    kind = rnd.randrange(8)
     level = rnd.choice(LEVELS)
     recs = records_of(d, level)
     if not recs:
@@ -454,6 +479,26 @@ def malform(rnd, doc):
                  "section_order": {".data": ".text"}, "files": [{"path": "in.o"}], "dir": "d"}[k]
             f[k] = v
             return d, "file field %s" % k
+        return d, "noop"
+    if kind == 7:
+        # two fields that are harmless alone: an explicit kind with an empty path, an empty follows_classes with
+        # some of the other placement fields
+        files = [f for f in records_of(d, "file") if isinstance(f, dict) and "path" in f]
+        cls = records_of(d, "class")
+        if files and (not cls or rnd.random() < 0.6):
+            f = rnd.choice(files)
+            f["kind"] = rnd.choice(["object", "archive"])
+            f["path"] = ""
+            return d, "explicit kind with an empty path"
+        if cls:
+            c = rnd.choice(cls)
+            c["follows_classes"] = []
+            for k in ("fixed_vram", "fixed_symbol"):
+                if rnd.random() < 0.5:
+                    c.pop(k, None)
+                else:
+                    c[k] = {"fixed_vram": 0x80001000, "fixed_symbol": "sym_a"}[k]
+            return d, "empty follows_classes with other placement fields"
         return d, "noop"
     if kind == 5:
         segs = records_of(d, "segment")
